@@ -142,7 +142,9 @@ class Enc:
                 if isinstance(n, int):
                     self.emit(n, "pad", None, "pad", st)
                     return None
-            raise AnalysisError("layout: buffer += unclassifiable: %s" % canon(st))
+            # `buf += <octets>`: the same as buf.extend(<octets>) for a bytearray
+            self.emit(None, "seq", subst_expr(v, loc), "extend", st)
+            return None
         if isinstance(st, ast.Expr) and isinstance(st.value, ast.Call):
             self.expr_stmt(st.value, c, m, loc, depth, buf)
             return None
